@@ -28,7 +28,8 @@ CONSTANTS Nodes,         \* node names; the address order is the string order
           FD,            \* TRUE: failure detection on (ages), FALSE: off
           MaxAge,        \* FD: age at which a member is removed
           BumpAdvancesVersion, \* TRUE: a re-joining node increments its version-vector entry again after raising its generation
-          QuietTicks     \* TRUE: timers fire only when nothing is in flight (timers are slow compared with delivery)
+          QuietTicks,    \* TRUE: timers fire only when nothing is in flight (timers are slow compared with delivery)
+          JoinShortcut   \* TRUE: the variant "a joining node that sees itself listed as up in a gossip is done" (a seeded change)
 
 None == [gen |-> 0, lc |-> 0, st |-> "none", ts |-> 0, at |-> "none"]
 
@@ -183,13 +184,17 @@ Deliver(p) ==
                    lv0 == [lastVV[dst] EXCEPT ![src] = mv.vv]
                    lv1 == IF r.changed THEN [t \in Nodes |-> IF t \in Allowed(dst, r.view) THEN lv0[t] ELSE Unknown] ELSE lv0
                IN /\ view' = [view EXCEPT ![dst] = r.view]
+                  \* JoinShortcut: the entry found may belong to the previous incarnation; the generation bump of Join is skipped
+                  /\ proc' = IF JoinShortcut /\ proc[dst].run = "joining" /\ r.view.mem[proc[dst].id] # None
+                                 /\ r.view.mem[proc[dst].id].st = "up" /\ r.view.mem[proc[dst].id].at = dst
+                              THEN [proc EXCEPT ![dst].run = "up", ![dst].self = [@ EXCEPT !.st = "up"]] ELSE proc
                   /\ lastVV' = [lastVV EXCEPT ![dst] = lv1]
                   /\ leader' = [leader EXCEPT ![dst] = IF r.changed THEN LeaderOf(r.view) ELSE @]
                   /\ age' = [age EXCEPT ![dst] = [i \in Ids |-> IF view[dst].mem[i] # None /\ view[dst].mem[i].at = src THEN 0 ELSE @[i]]]
                   /\ net' = IF r.changed THEN Push(rest, dst, r.view, SendTo(dst, r.view, lv1)) ELSE rest
           ELSE /\ net' = rest
-               /\ UNCHANGED <<view, lastVV, leader, age>>
-    /\ UNCHANGED <<proc, cut, clock, faults, stopped>>
+               /\ UNCHANGED <<proc, view, lastVV, leader, age>>
+    /\ UNCHANGED <<cut, clock, faults, stopped>>
 
 (* runGossipRound; with FD the tick also stands for elapsed time: every member's age grows *)
 GossipTick(n) ==
@@ -259,7 +264,9 @@ LeaderAnnounced == \A n \in UpNodes : leader[n] = LeaderOf(view[n])
 OneLeader == UpNodes # {} => Cardinality({n \in UpNodes : leader[n] = n}) = 1
 ExactlyTheRunning == \A n \in UpNodes : Addrs(view[n]) = UpNodes
 NoShadow == \A n \in UpNodes : \A i, j \in Members(view[n]) : view[n].mem[i].at = view[n].mem[j].at => i = j
-NewestIncarnation == \A n, x \in UpNodes : proc[x].id \in Members(view[n]) /\ view[n].mem[proc[x].id] = view[x].mem[proc[x].id]
+NewestIncarnation == /\ \A n, x \in UpNodes : proc[x].id \in Members(view[n]) /\ view[n].mem[proc[x].id] = view[x].mem[proc[x].id]
+                     \* ... and what a node holds about itself is the running process, not a predecessor
+                     /\ \A x \in UpNodes : view[x].mem[proc[x].id].gen = proc[x].self.gen /\ view[x].mem[proc[x].id].ts = proc[x].self.ts
 
 (* liveness: from some point on all running nodes hold the same members in the same incarnations and have announced the same leader *)
 Agreed == /\ \A a, b \in UpNodes : view[a].mem = view[b].mem
